@@ -4,23 +4,37 @@ sys.path.insert(0, os.path.dirname(os.path.dirname(os.path.abspath(__file__))))
 import vlib
 
 PID = "C09"
-LEAN_MODULES = ["QbiceVerif.Props.C09"]
+LEAN_MODULES = ["QbiceVerif.Props.C09",
+                "QbiceVerif.Lemmas.SetCacheConcBasic", "QbiceVerif.Lemmas.SetCacheConcInv", "QbiceVerif.Lemmas.SetCacheConcLocal",
+                "QbiceVerif.Lemmas.SetCacheConcStepA", "QbiceVerif.Lemmas.SetCacheConcStepB", "QbiceVerif.Lemmas.SetCacheConcStepC",
+                "QbiceVerif.Lemmas.SetCacheConcStepD", "QbiceVerif.Lemmas.SetCacheConcMain", "QbiceVerif.Lemmas.SetCacheConcOwner"]
 DRIVER = "drv_cache"
 HARNESS_BIN = "cache"
 HARNESS_FEATURES = ""
 PARTIAL = [
-    "no theorem for the key-of-set cache with CONCURRENT foreground tasks: set_refines_map covers one foreground task whose operations are atomic steps "
-    "(background commit / notify / evictions between them, as in the property's quantifier); the generation check that /repo 73760b5 added to the set "
-    "cache's fetch (repair of F50) is not modelled; concurrency on the set cache is covered only by the two-thread scenario (reader fetch vs insert/remove) "
-    "that runs on every check",
-    "wide_refines_map_concurrent (any number of tasks, arbitrary interleaving) holds under the schedule assumption `ordered` (see ASSUMPTIONS); "
-    "`ordered_is_needed` shows the assumption cannot be dropped",
+    "key-of-set cache with concurrent foreground tasks: set_refines_map_concurrent (any number of tasks, multi-step get/insert/remove exactly in the order of "
+    "cache.rs incl. the generation check of /repo 73760b5, any interleaving with commit / flush / eviction, any threshold) proves ELEMENT-WISE linearizability: "
+    "membership of every element in the returned set is its membership in the abstract set at some point of the read's interval (exact set for a read that overlaps no "
+    "write; every write that returned before the read is in it). WHOLE-SET atomicity of a read that overlaps writes is FALSE for the code and not claimed "
+    "(set_whole_set_not_atomic: the staging snapshot and the store scan of a fetch / a streaming read are taken at two instants, a single writer suffices; reproduced "
+    "on the real code by the gated schedule `whole-set`); the theorem needs the usage assumption `orderedElem` (see ASSUMPTIONS)",
+    "the concurrent set model (SetCacheConc) leaves out the eviction of the staging log and its `dirty` counter (an evictable log is empty: proved only in the "
+    "sequential model, set_refines_map) and replaces the single flight by its over-approximation (any number of tasks may fetch at once; a task that missed may "
+    "go round the loop at any time)",
+    "CONDITIONAL on an explicit schedule hypothesis: wide_refines_map_concurrent (any number of tasks, arbitrary interleaving; hypothesis `hordered : WideCacheR.orderedSched … = true`, "
+    "i.e. every cacheWrite is `ordered`) and set_refines_map_concurrent / set_get_without_overlap_exact (hypothesis `hordered : SetCacheConc.orderedSched … = true`, i.e. every stage is "
+    "`orderedElem`; the `_reach` forms quantify over `ReachOrdered`). For sets the hypothesis is DISCHARGED by set_refines_map_concurrent_owned under the write discipline "
+    "'every element of the key is written by one fixed task' (`ownedSched`; SetCacheConc.owned_is_ordered proves that it implies orderedElem at every stage). Nothing in the storage layer enforces either condition (the cache applies writes in arrival order, the store applies "
+    "batches in epoch order): they are obligations of the CALLER. `ordered_is_needed`, `set_overlap_is_needed`, `set_epoch_order_is_needed` show they cannot be dropped. For the engine: "
+    "`orderedElem` was examined by reading and holds (see ASSUMPTIONS); `ordered` holds for the node-owned wide columns but was NOT established for DirtySetColumn keys (see ASSUMPTIONS) – "
+    "neither is machine-checked against the engine",
 ]
 HISTORICAL = [
     "wide cache: finding F9 (stale fill under concurrency) was found by this check and fixed in /repo 5fe68af; the model of the code as it is is WideCacheR "
     "with fix = true (the driver runs it); wide_refines_map_concurrent_fails / wide_concurrent_unrepaired_fails are decide-witnesses of the fixed defect",
     "set cache: finding F50 (a fetch cached a set built from a staging snapshot older than a concurrent write) was found by this check and fixed in /repo "
-    "73760b5; set_concurrent_get_insert_fails is the witness on the pre-fix split of get",
+    "73760b5; set_concurrent_get_insert_fails (sequential model, get split in two) and set_concurrent_unrepaired_fails (concurrent model SetCacheConc with "
+    "the generation check switched off, `fix = false`) are the decide-witnesses; the driver runs `fix = true` (`drv_cache conc`; `unfix=gen` switches back)",
     "set_refines_map is a statement about the code as it is: findings F10 (get_snapshot cancelled staged operations in heap order) and F17 "
     "(Spilled iterator ended early) were found by this check and fixed in /repo (d9a4d81, b91d22f); the model's switches fixSnap/fixSpill are "
     "kept, `repaired` (both on) is what the correspondence runs, `asIs` (both off) is the code before the fixes",
@@ -30,14 +44,28 @@ HISTORICAL = [
 ASSUMPTIONS = [
     "a pinned entry is not evicted (TinyLFU asks `is_pinned` again under the entry lock) — imported from C16; the model's `evict` is enabled exactly when pin <= 0 "
     "and otherwise unconstrained (any capacity >= 1, any admission decision)",
-    "concurrent theorem: `ordered` – a write of a key reaches the cache only from a batch whose epoch exceeds that of every other uncommitted batch that "
-    "already wrote the key. This is a USAGE CONSTRAINT of the write-behind design (the store applies batches in epoch order whatever the order of the "
-    "writes), not verified for the engine here: what was read in the engine is that every query computation opens its own batch (slow_path.rs), a query's own "
-    "node is written under its per-query computing lock, and the input session creates its batch after taking the exclusive phase lock (sync.rs); whether "
-    "two overlapping computations can write one wide-column key (e.g. a DirtySetColumn edge) in anti-epoch order was not examined",
+    "concurrent wide theorem, hypothesis `ordered` – a write of a key reaches the cache only from a batch whose epoch exceeds that of every other uncommitted batch that "
+    "already wrote the key. USAGE CONSTRAINT of the write-behind design (the store applies batches in epoch order whatever the order of the writes; no lock or generation in "
+    "wide_column_cache.rs relates the two), examined for the engine BY READING ONLY: epochs are handed out by `new_write_batch` in creation order; every wide column keyed by a query id "
+    "(QueryKind, NodeInfo, LastVerified, forward edges / observations, QueryInput/Result, PendingBackwardProjection) is written only by that query's publication block "
+    "(slow_path.rs execute_query → database.rs computing_lock_to_computed), whose batch is created and used while the query's computing lock is held, or by the input session for an "
+    "input query under the exclusive phase lock with a batch created after the lock (sync.rs) – so writes of such a key are sequential and in epoch order. NOT established: DirtySetColumn "
+    "keys (an edge caller→callee) are inserted by dirty propagation of ANOTHER query's publication block / the input session and removed by the caller's own publication block, from "
+    "batches created at different times; whether an insert from an older batch can follow a remove from a newer one inside one computation phase needs the engine-level argument "
+    "(C01/C02 territory) and was not made – a defect candidate, not a finding",
     "one foreground task has at most one open write batch at a time, so batch epochs of its writes are non-decreasing in issue order "
     "(with two open batches a write recorded in the lower-epoch batch after a write in the higher-epoch one loses in the store although it wins in the cache; "
     "this usage is outside the theorems and outside the generator)",
+    "concurrent set theorems, hypothesis `orderedElem` – two writes (insert/remove) of the SAME ELEMENT of a key never overlap in time and come from batches in epoch order; writes "
+    "of different elements of the key are unconstrained (any overlap, any epoch order). Weaker than the wide cache's `ordered`; nothing in cache.rs enforces it (the staging log is ordered "
+    "by (epoch, seq), the cached set by arrival). Examined for the engine BY READING and found to hold: the key-of-set columns are BackwardEdgeColumn (key = callee, element = caller) and "
+    "ExternalInputColumn (key = type, element = query); every insert/remove passes `self.query_id()` of the query being published as the ELEMENT (database.rs "
+    "computing_lock_to_computed: `backward_edges.remove(edge, self.query_id(), tx)` / `.insert(callee, self.query_id(), tx)`; set_input: `remove(edge, &query_id, tx)`), the batch is created "
+    "inside the publication block after the query's computing lock was obtained (slow_path.rs `new_write_transaction` in execute_query; at most one owner per query: C02 single_flight) "
+    "resp. after the exclusive phase lock (sync.rs), and epochs are creation order – so all writes of one element are made by one task at a time, each later writer's batch being created "
+    "after the earlier writer's writes returned. Not machine-checked against the engine. set_overlap_is_needed / set_epoch_order_is_needed: decide-witnesses that neither half can be dropped",
+    "iteration over the cached in-memory set is one atomic read in the model (true for the harness's SortedSet; the engine's DashSet iterator is weakly consistent – the element-wise "
+    "statement does not depend on it: every element is read once, and the invariant about the entry a reader holds is stated for every instant)",
     "scc::HashMap entry operations are atomic per key; `KvDatabase::commit` applies a batch atomically; scans are snapshots",
     "the after-commit worker is a single FIFO thread and notifies all wide columns of a batch before its key-of-set columns",
 ]
@@ -46,13 +74,21 @@ TRUSTED_EXTRA = [
     "'any unpinned entry may vanish at any time'); std BinaryHeap (push = append + sift-up reproduced exactly for the iteration order; "
     "`FlushUpTo` = 'empty the heap iff its maximum is <= epoch', i.e. peek returns a maximum); single-flight / tokio Notify as 'a waiter may retry at any time'; "
     "the staging log's deferred-message queue (only used when a reader holds the log lock concurrently) is not modelled",
+    "concurrent set model, modelled not verified: one atomic step each for `staging.get_map` + `get_snapshot` (a reader holding the `Arc` of a log that is evicted in between sees an "
+    "empty log = an earlier snapshot), for `put_set` + `dirty += 1` + log append (`stage`), for `dirty -= 1` + `FlushUpTo`; `write_generation` is one counter for all keys of the map "
+    "(`otherBump`); TinyLFU admission refusing the fetched entry = install followed by eviction; gated schedules (no hook in /repo) identify the atomic steps by the harness-owned calls the cache makes on "
+    "the worker's own thread: `Hash`/`Clone` of the key (only the worker's own key reference counts, so TinyLFU maintenance is ignored; `staging.get_map`, `cache.get`, single-flight "
+    "`hash_one`, and the key clone inside `cache.entry` = the install was really made), the KV scan (before / after reading the store) and the SortedSet methods (`default`, `clone`/`iter`, "
+    "`insert_element`/`remove_element`); park points: before snapshot / lookup / single flight / scan, after scan, before read; before stage / `cache.get` / in-place update; a worker's "
+    "future is polled by hand (`Pending` = single-flight waiter); one worker advances at a time, steps between two gates are emitted together (`stage`+`bump`, `gstart`+`gload`); a start-up "
+    "calibration of every gate aborts the harness (exit 2) when the call pattern of cache.rs changes; the free-running stress is judged by the harness's per-element oracle only",
     "correspondence without hooks in /repo: HarnessKv (in-memory KvDatabase of the harness) gates `commit`; the key type's `Hash` impl gates the "
     "after-commit thread (first lookup of a batch's flush waits for a `notify` permit) and a trailing sentinel key-of-set column per batch reports completion; "
     "store reads / set fetches / scans during each read are observed and validated against the model (a read that went to the store must be justifiable by an "
     "enabled `evict`; a read that did not must find the entry in the model)",
 ]
 RULE = ("case has at least one background commit and at least one read that went to the store (miss after eviction / streaming / fetch); "
-        "distinct by case text")
+        "gated concurrent cases: at least one get overlaps another operation; distinct by case text")
 
 
 def _read(p):
@@ -93,7 +129,8 @@ def _collect(res, o, dist):
             for kk, vv in v.items(): dd[kk] = dd.get(kk, 0) + vv
         elif k == "sentinel_column": dist[k] = v
         elif k == "max_set_size": dist[k] = max(dist.get(k, 0), v)
-        else: dist[k] = dist.get(k, 0) + v
+        elif isinstance(v, (int, float)): dist[k] = dist.get(k, 0) + v
+        else: dist[k] = v
     if len(res.samples) < 6: res.samples += rep["samples"][:1]
     n, diffs = vlib.diff_streams(os.path.join(d, "impl.txt"), os.path.join(d, "model.txt"), os.path.join(d, "ops.txt"), limit=3)
     res.lines_compared += n
@@ -120,7 +157,12 @@ def run(ctx, boost=1):
         return res
     dist = {}
     if ctx.replay:
-        o = _run_stream(ctx, binp, "replay", ctx.seed, 1, ["--replay", ctx.replay], [])
+        try: conc_replay = "ccase" in open(ctx.replay, encoding="utf-8", errors="replace").read()
+        except OSError: conc_replay = False
+        if conc_replay:
+            o = _run_stream(ctx, binp, "replay", ctx.seed, 1, ["--conc-gated", "--replay", ctx.replay], ["conc"])
+        else:
+            o = _run_stream(ctx, binp, "replay", ctx.seed, 1, ["--replay", ctx.replay], [])
         rep = _collect(res, o, dist)
         if rep: res.oracle_failures += [f for f in rep["oracle_failures"]]
         res.distribution = dist
@@ -174,6 +216,35 @@ def run(ctx, boost=1):
         res.extra["two_thread_stale_fill"] = rep.get("concurrency", "")
     else:
         res.disagreements.append({"line": 0, "op": "stale-fill scenario", "impl": log[-600:], "model": ""})
+    # 5. set cache, several real threads, gated schedules: every observed atomic step is replayed through SetCacheConc.fire
+    #    (the model must accept the sequence and predict every returned set); the harness judges the same runs with its own
+    #    per-element oracle
+    gdist = {}
+    ng = (300 if ctx.quick() else 3000) * boost
+    jobs = [(ctx, binp, f"g{i}", ctx.seed * 1000 + 700 + i, ng, ["--conc-gated"], ["conc"]) for i in range(min(shards, 8))]
+    gated_cases = 0
+    for o in vlib.shard_map(_shard, jobs, ctx.jobs):
+        rep = _collect(res, o, gdist)
+        if rep:
+            res.oracle_failures += rep["oracle_failures"]
+            gated_cases += rep["evaluations"]
+    dist["concurrent_set_gated"] = gdist
+    res.extra["concurrent_set_gated_cases"] = gated_cases
+    # 6. set cache, free-running threads (oracle only: per-element regular semantics from the recorded history + exact final sets)
+    def _stress(i):
+        out = os.path.join(ctx.work, f"cs{i}")
+        rc, log = vlib.sh([binp, "--conc-stress", "--seed", str(ctx.seed * 1000 + 800 + i), "--tier", ctx.tier, "--out", out], timeout=1200)
+        return (out, rc, log)
+    sdist = {}
+    for out, rc, log in vlib.shard_map(_stress, list(range(4 if ctx.quick() else 8)), ctx.jobs):
+        if rc != 0:
+            res.disagreements.append({"line": 0, "op": out, "impl": f"harness exit {rc}: {log[-400:]}", "model": ""}); continue
+        rep = json.load(open(os.path.join(out, "report.json")))
+        res.evaluations += rep["evaluations"]
+        res.oracle_failures += rep["oracle_failures"]
+        for k, v in rep.get("distribution", {}).items():
+            if isinstance(v, (int, float)): sdist[k] = sdist.get(k, 0) + v
+    dist["concurrent_set_stress"] = sdist
     res.extra["historical"] = HISTORICAL
     res.distribution = dist
     res.partial = PARTIAL
